@@ -212,6 +212,8 @@ def run(ctx):
     logabs_rule(ctx)
     arg_rule(ctx)
     eq_rule(ctx)
+    out_of_place(ctx)
+    rep.floor('CX-11', 40)
     rep.floor('CX-10', 2)
     rep.floor('CX-9', 1)
     rep.floor('CX-8', 1)
@@ -567,6 +569,70 @@ def sign_models(pc, x, y):
             if all(ev(c, sx, sy) for c in pc):
                 out.add((sx, sy))
     return out
+
+
+def out_of_place(ctx):
+    """CX-11: every operation exists twice - a_complex_F_(ctx, args) working in place and a_complex_F(ctx, z, args) writing F(z) to *ctx.
+    The second form must be the first one applied to z: both are interpreted with everything below them uninterpreted (the second
+    form with its in-place sibling followed when it calls it) and must produce the same pair on the same path."""
+    rep = ctx.rep
+    try:
+        hm = ctx.module('hdr_unit', have='all')
+        cm = ctx.module('complex', have='all')
+    except Exception as e:
+        rep.unk('CX-11', 'complex.h', 'unit not readable: %s' % e)
+        return
+    allf = {}
+    for m_ in (cm, hm):
+        for n_, f_ in m_.functions.items():
+            if not f_.error and n_ not in allf:
+                allf[n_] = f_
+    pairs = []
+    for n_, f_ in sorted(allf.items()):
+        if re.fullmatch(r'a_complex_[a-z0-9_]*[a-z0-9]', n_) and (n_ + '_') in allf and f_.params and f_.params[0][0].is_ptr:
+            pairs.append((f_, allf[n_ + '_']))
+    for F, S in pairs:
+        name = F.name
+        loc = F.loc(F.entry.instrs[0])
+        try:
+            nF = [t for t, _ in F.params[1:]]
+            nS = [t for t, _ in S.params[1:]]
+            if not all(t.k == 'double' for t in nF + nS) or len(nF) != len(nS) + 2:
+                raise Unsupported('parameters of %s / %s are not (ctx, z, args) / (ctx, args)' % (F.name, S.name))
+            rest = [sp.Symbol('r%d' % k, real=True) for k in range(len(nS))]
+
+            def run(fn, args, follow):
+                dom = CDom(getattr(ctx, 'ctab', {}), set())
+                dom.syms['ctx[0]'] = X
+                dom.syms['ctx[8]'] = Y
+                it = symx.Interp(dom, lambda n: allf.get(n) if n in follow else None)
+                return dom, it.run(fn, args)
+            dS, lvS = run(S, [Ptr('ctx', 0)] + rest, set())
+            dF, lvF = run(F, [Ptr('ctx', 0), X, Y] + rest, {S.name})
+            ctx.rep.functions.add(name)
+            probs = []
+            byS = {}
+            for lf in lvS:
+                byS[str(lf.pc)] = out(lf)
+            if len(lvF) != len(lvS):
+                probs.append('%d paths, the in-place form has %d' % (len(lvF), len(lvS)))
+            for lf in lvF:
+                g = lf.store.get(('ctx', 0)), lf.store.get(('ctx', 8))
+                if g[0] is None or g[1] is None:
+                    probs.append('does not store both components of the result')
+                    continue
+                w = byS.get(str(lf.pc))
+                if w is None:
+                    probs.append('path %s has no counterpart in %s' % (str(lf.pc)[:80], S.name))
+                    continue
+                if not (zero(sp.sympify(g[0][0]) - sp.sympify(w[0])) and zero(sp.sympify(g[1][0]) - sp.sympify(w[1]))):
+                    probs.append('stores (%s, %s), %s applied to z gives (%s, %s)' % (show(g[0][0]), show(g[1][0]), S.name, show(w[0]), show(w[1])))
+            if probs:
+                rep.bad('CX-11', name, '; '.join(sorted(set(probs))[:2])[:500], loc=loc, key='%s: out-of-place form' % name)
+            else:
+                rep.ok('CX-11', name, '*ctx = %s applied to z (%d path(s))' % (S.name, len(lvF)), loc=loc, sample={'fn': name, 'sibling': S.name})
+        except Unsupported as e:
+            rep.unk('CX-11', name, str(e), loc=loc)
 
 
 def principal_sqrt(ctx):
